@@ -43,6 +43,9 @@ struct Base {
     cfg: Config,
     /// per file: sorted list of (start, end, structure label)
     structure: BTreeMap<PathBuf, Vec<(usize, usize, &'static str)>>,
+    /// table file that holds the newest version of each user key (keys whose newest version is in
+    /// the WAL are not listed)
+    owner: BTreeMap<Vec<u8>, PathBuf>,
     description: Value,
 }
 
@@ -184,6 +187,28 @@ fn build_base(rng: &mut Rng, idx: u64) -> Result<Base, String> {
     let split = split.ok_or("cannot align the WAL contents with the acknowledged writes")?;
     let wal_batches: Vec<Vec<WriteOp>> = exec.acks[split..].iter().filter(|a| a.ok).map(|a| a.ops.clone()).collect();
     let structure = build_structure(&exec, &fs_image);
+    // which table file holds the newest version of each key
+    let mut newest: BTreeMap<Vec<u8>, (u64, PathBuf)> = BTreeMap::new();
+    {
+        let fs = SimFs::from_image(&fs_image);
+        let options = dbutil::options(fs.as_provider(), dbutil::DB_PATH, &params.cfg);
+        for path in fs_image.files.keys().filter(|p| classify(p) == PathClass::Table) {
+            let number = crate::simfs::file_number(path).ok_or("table without a number")?;
+            let reader = raindb::verif::table::open(&options, number)?;
+            let mut cur = reader.cursor(false);
+            cur.seek_to_first()?;
+            while cur.is_valid() {
+                let (k, _) = cur.current().unwrap();
+                let e = newest.entry(k.user_key.clone()).or_insert((0, path.clone()));
+                if k.sequence >= e.0 {
+                    *e = (k.sequence, path.clone());
+                }
+                cur.next();
+            }
+        }
+    }
+    let wal_keys: BTreeSet<Vec<u8>> = wal_batches.iter().flat_map(|b| b.iter().map(|(k, _)| k.clone())).collect();
+    let owner: BTreeMap<Vec<u8>, PathBuf> = newest.into_iter().filter(|(k, _)| !wal_keys.contains(k)).map(|(k, (_, p))| (k, p)).collect();
     let description = json!({"execution": exec.description, "files": fs_image.listing(), "wal_batches": wal_batches.len(), "keys": truth.len()});
     Ok(Base {
         image: fs_image,
@@ -194,6 +219,7 @@ fn build_base(rng: &mut Rng, idx: u64) -> Result<Base, String> {
         universe: exec.universe.clone(),
         cfg: params.cfg,
         structure,
+        owner,
         description,
     })
 }
@@ -239,7 +265,8 @@ struct Observed {
 }
 
 /// Open the mutated image and read everything; classify and judge.
-fn judge_image(out: &mut CaseOut, base: &Base, image: &Image, file_class: PathClass, structure: &str, ctx: &Value, rng: &mut Rng) -> Observed {
+#[allow(clippy::too_many_arguments)]
+fn judge_image(out: &mut CaseOut, base: &Base, image: &Image, damaged: &PathBuf, file_class: PathClass, structure: &str, ctx: &Value, rng: &mut Rng) -> Observed {
     let cfg = Config { reuse: rng.chance(0.5), ..base.cfg };
     let fs = SimFs::from_image(image);
     let mut sess = Session::new(fs, cfg);
@@ -247,6 +274,8 @@ fn judge_image(out: &mut CaseOut, base: &Base, image: &Image, file_class: PathCl
     if sess.open().is_err() {
         return Observed { outcome: "open-error" };
     }
+    let violations_at_start = out.violations.len();
+    let mut incomplete = false;
     let mut any_read_error = false;
     let mut failing_keys: BTreeSet<Vec<u8>> = BTreeSet::new();
     let mut state = Map::new();
@@ -281,14 +310,24 @@ fn judge_image(out: &mut CaseOut, base: &Base, image: &Image, file_class: PathCl
                 }
             }
         }
-        if out.violations.len() >= 6 {
+        if out.violations.len() > violations_at_start + 3 {
+            // enough witnesses from this image; the state below would be incomplete
+            incomplete = true;
             break;
         }
+    }
+    if incomplete {
+        sess.close();
+        return Observed { outcome: "violated" };
     }
     if wal_damage && !any_read_error && !is_subset_state(base, &state) {
         out.violate(
             format!("C15/wal-damage/state-is-not-tables-plus-whole-batches/{structure}"),
-            json!({"ctx": ctx, "wal_batches": base.wal_batches.len(), "observed_entries": state.len(), "true_entries": base.truth.len()}),
+            json!({"ctx": ctx, "wal_batches": base.wal_batches.len(), "observed_entries": state.len(), "true_entries": base.truth.len(),
+                "tables_only_entries": base.tables_only.len(),
+                "observed": state.iter().take(6).map(|(k, v)| format!("{}={}", show(k), show(&v[..v.len().min(10)]))).collect::<Vec<_>>(),
+                "wal_batch_keys": base.wal_batches.iter().map(|b| b.iter().map(|(k, v)| format!("{}{}", if v.is_some() { "+" } else { "-" }, show(k))).collect::<Vec<_>>()).collect::<Vec<_>>(),
+                "files_after": sess.fs.image().listing(), "recovered_with": cfg.describe()}),
         );
     }
     // scan
@@ -316,11 +355,11 @@ fn judge_image(out: &mut CaseOut, base: &Base, image: &Image, file_class: PathCl
                 // D11's shape: an iterator that meets an unreadable table block only logs the error
                 // and drops the rest of that file from the merge, and the public iterator has no
                 // status(). The scan then omits keys or shows older versions from deeper files.
-                // It is that shape only if point reads do detect the damage (some get fails) and
-                // every affected key lies at or after the first key whose own get fails.
-                let first_failing = failing_keys.iter().next();
+                // It is that shape only if the damaged file is a table and every affected key has
+                // its newest version stored in that very file (the scan lost that file's entries
+                // and nothing else).
                 let explained = file_class == PathClass::Table
-                    && first_failing.map_or(false, |f| omitted.iter().chain(wrong.iter()).all(|k| *k >= f));
+                    && omitted.iter().chain(wrong.iter()).all(|k| base.owner.get(*k) == Some(damaged));
                 let detail = json!({"ctx": ctx, "scan_returned": scanned.len(), "true_entries": base.truth.len(),
                     "omitted": omitted.iter().take(5).map(|k| show(k)).collect::<Vec<_>>(),
                     "stale_or_resurrected": wrong.iter().take(5).map(|k| show(k)).collect::<Vec<_>>(),
@@ -369,6 +408,13 @@ pub fn run_case(tier: &str, seed: u64, idx: u64) -> CaseOut {
     let mut rng = Rng::new(mix(&[seed, idx], "c15-mut"));
     let thorough = tier != "quick";
     let files: Vec<PathBuf> = base.image.files.keys().filter(|p| !matches!(classify(p), PathClass::Lock | PathClass::Dir | PathClass::Other)).cloned().collect();
+    let mut files = files;
+    files.sort_by_key(|p| match classify(p) {
+        PathClass::Wal => 0,
+        PathClass::Current => 1,
+        PathClass::Table => 2,
+        _ => 3,
+    });
     let mut images = 0u64;
     for path in &files {
         let class = classify(path);
@@ -405,7 +451,7 @@ pub fn run_case(tier: &str, seed: u64, idx: u64) -> CaseOut {
             let ctx = json!({"base": base.description, "file": path.display().to_string(), "offset": offset, "of": len, "mutation": what, "structure": structure});
             images += 1;
             let panics_before = watch::peek_panics().len();
-            let result = catch_unwind(AssertUnwindSafe(|| judge_image(&mut out, &base, &image, class, structure, &ctx, &mut rng)));
+            let result = catch_unwind(AssertUnwindSafe(|| judge_image(&mut out, &base, &image, path, class, structure, &ctx, &mut rng)));
             let outcome = match result {
                 Ok(o) => o.outcome,
                 Err(_) => "detected-by-panic",
